@@ -715,6 +715,7 @@ type Pool struct {
 	New   func() any
 	slots [poolCap]poolSlot
 	n     int
+	epoch uint64 // the simulated run the content belongs to
 }
 
 const poolCap = 64
@@ -724,8 +725,25 @@ type poolSlot struct {
 	flag atomic.Uint32
 }
 
+// fresh empties a pool that outlived a simulated run (a package-level sync.Pool of the code under
+// test): what one run put into it must not surface in the next one - objects tied to the earlier
+// run's bubble (timers, channels) would, and the run would no longer be a function of its seed.
+// The real pool may drop its content at any time, so this is a behaviour it can show.
+//
+//go:norace
+func (p *Pool) fresh() {
+	if e := simrt.RunEpoch(); e != p.epoch {
+		p.epoch = e
+		for i := 0; i < p.n; i++ {
+			p.slots[i].v = nil
+		}
+		p.n = 0
+	}
+}
+
 //go:norace
 func (p *Pool) push(x any) int {
+	p.fresh()
 	if p.n >= poolCap || simrt.PoolDrops() {
 		return -1
 	}
@@ -736,6 +754,7 @@ func (p *Pool) push(x any) int {
 
 //go:norace
 func (p *Pool) pop() (any, int) {
+	p.fresh()
 	if p.n == 0 {
 		return nil, -1
 	}
